@@ -24,6 +24,9 @@ func feedScenario(c *sup.Ctx, r *rng.R, enumerated bool) {
 	perm := r.Perm(len(feedActions))
 	for _, i := range perm[:n] {
 		s.Actions = append(s.Actions, feedActions[i])
+		if strings.HasPrefix(feedActions[i], "close") && r.Chance(1, 3) {
+			s.Actions = append(s.Actions, feedActions[i]) // the same handle is closed again right away
+		}
 	}
 	s.Report = func(kind, msg string) {
 		if kind == "setup" {
